@@ -191,9 +191,29 @@ pub fn space_large(c: &SpaceCfg, f: &mut dyn FnMut(&str, &Val)) {
     }
 }
 
+/// (f) element counts at the boundaries of the varint / zigzag-varint widths (a count sized with
+/// the wrong one of the two is off by one byte exactly there): 63, 64, 127, 128 [8191, 8192,
+/// 16383, 16384] elements or entries, bare and as a field
+pub fn space_counts(c: &SpaceCfg, f: &mut dyn FnMut(&str, &Val)) {
+    let counts: &[usize] = if c.thorough { &[63, 64, 127, 128, 8191, 8192, 16383, 16384] } else { &[63, 64, 127, 128] };
+    for &n in counts {
+        let vals = [
+            Val::List(T::I8, (0..n).map(|i| Val::I8(i as i8)).collect()),
+            Val::Set(T::I32, (0..n).map(|i| Val::I32(i as i32)).collect()),
+            Val::Map(T::I32, T::I8, (0..n).map(|i| (Val::I32(i as i32), Val::I8(1))).collect()),
+            Val::Map(T::Bin, T::Bool, (0..n).map(|i| (Val::Bin(format!("{:x}", i).into_bytes()), Val::Bool(i % 2 == 0))).collect()),
+        ];
+        for v in &vals {
+            f("f:count-boundary", v);
+            f("f:count-boundary", &Val::Struct(vec![(1, v.clone()), (2, Val::I32(7))]));
+        }
+    }
+}
+
 /// single values of all value spaces
 pub fn all_values(c: &SpaceCfg, f: &mut dyn FnMut(&str, &Val)) {
     space_shapes(c, f);
     space_scalars(c, f);
     space_neighbours(c, f);
+    space_counts(c, f);
 }
